@@ -15,6 +15,72 @@ def _fd(cx, port):
     return p, p.func(cx.engine_mod(port), 'like_to_regex')
 
 
+def _escrepl_family(fd, port):
+    """`x = escape(pattern)` followed only by constant .replace(a, b) steps on x: returns (list of (search, repl, node)) or None"""
+    pat = fd.args.args[0].arg
+    esc = [n for n in walk_no_nested(fd) if isinstance(n, ast.Call) and call_name(n) in ESCAPERS[port] and len(n.args) == 1 and is_name(n.args[0], pat)]
+    loops = [n for n in walk_no_nested(fd) if isinstance(n, (ast.While, ast.For))]
+    if len(esc) != 1 or loops:
+        return None
+    steps = []
+    for n in walk_no_nested(fd):
+        if isinstance(n, ast.Call) and isinstance(n.func, ast.Attribute) and n.func.attr == 'replace' and len(n.args) == 2:
+            a, b = n.args
+            av = a.value if isinstance(a, ast.Constant) else (a.args[0].value if isinstance(a, ast.Call) and dotted(a.func) == '__regex__' else None)
+            bv = b.value if isinstance(b, ast.Constant) else None
+            if not isinstance(av, str) or not isinstance(bv, str):
+                return None
+            steps.append((n.lineno, n.col_offset, av, bv, n))
+    # evaluation order of a chained x.replace(..).replace(..): inner call first; inner has the smaller end position
+    steps.sort(key=lambda t: (t[0], getattr(t[4], 'end_col_offset', t[1])))
+    return [(a, b, n) for _, _, a, b, n in steps]
+
+
+def _escaped_chars():
+    import re as _re
+    return {chr(c) for c in range(32, 127) if _re.escape(chr(c)) != chr(c)}
+
+
+def _prefix_of_escaped_text(s, esc):
+    """is s a prefix of some text produced by the escape function (tokens: backslash+char for escaped chars, the char otherwise)?"""
+    i = 0
+    while i < len(s):
+        if s[i] == '\\':
+            if i + 1 == len(s):
+                return True
+            if s[i + 1] not in esc:
+                return False
+            i += 2
+        else:
+            if s[i] in esc:
+                return False
+            i += 1
+    return True
+
+
+def _check_escrepl(rep, fd, steps, port):
+    esc = _escaped_chars() if port == 'py' else set('.*+?^${}()|[]\\')
+    ok = True
+    for (a, b, node) in steps:
+        if not a:
+            continue
+        # an occurrence of `a` that starts in the middle of a two-character token \\x of the escaped text
+        if a[0] in esc and _prefix_of_escaped_text(a[1:], esc):
+            rep.violated('replace {!r} -> {!r}'.format(a, b), node, 'on the escaped pattern the search string {!r} can match across a token boundary (the second half of an escaped {!r} followed by the next character): an escaped literal is corrupted, e.g. a literal backslash followed by a wildcard'.format(a, a[0]))
+            ok = False
+    final = {}
+    for (a, b, node) in steps:
+        if len(a) == 1 and a not in esc:
+            final[a] = b
+    want = {'%': '.*', '_': '.'}
+    if ok:
+        if {k: v for k, v in final.items()} == want:
+            later_hits = [(a, b) for i, (a, b, n) in enumerate(steps) for (a2, b2, n2) in steps[:i] if a in b2 and a2 in want]
+            rep.decide(not later_hits, 'escape-then-replace mapping', fd, 'whole pattern escaped, then % -> .* and _ -> . on token-aligned matches only', 'a later replace rewrites the output of an earlier wildcard translation: {}'.format(later_hits))
+        else:
+            rep.violated('escape-then-replace mapping', fd, 'after escaping, the wildcard translation is {} (must be exactly % -> .* and _ -> .)'.format(final))
+
+
 def _accum_var(fd):
     """the accumulator: the name concatenated in the return expression besides constants"""
     rets = [n for n in walk_no_nested(fd) if isinstance(n, ast.Return)]
@@ -38,6 +104,11 @@ def _slice_of_pattern(e, pat):
 def rule_lk_taint(cx, rep, port):
     """every piece of the pattern appended to the result passes through the escape function; only constants bypass it"""
     p, fd = _fd(cx, port)
+    steps = _escrepl_family(fd, port)
+    if steps is not None:
+        rep.holds('whole pattern escaped', fd, 'the whole pattern passes through the escape function before wildcard translation')
+        _check_escrepl(rep, fd, steps, port)
+        return
     pat = fd.args.args[0].arg
     acc, ret = _accum_var(fd)
     n = 0
@@ -80,6 +151,9 @@ def _concat_pieces(e):
 def rule_lk_map(cx, rep, port):
     """'_' -> '.', '%' -> '.*' and nothing else is special"""
     p, fd = _fd(cx, port)
+    if _escrepl_family(fd, port) is not None:
+        rep.holds('wildcard translation', fd, 'escape-then-replace family: judged by LK-TAINT')
+        return
     pat = fd.args.args[0].arg
     acc, ret = _accum_var(fd)
     mapping = {}
@@ -201,11 +275,21 @@ def rule_lk_anchor(cx, rep, port):
             if v is u and u.func.attr == 'test':
                 ok_ret = True
         rep.decide(ok_ret, 'verdict', f, 'like() returns "matched"', 'like() does not return "the pattern matched" (negated or different value)')
+        other = []
+        for r in ret_f:
+            v = r.value
+            good_ret = (isinstance(v, ast.Compare) and isinstance(v.ops[0], ast.IsNot) and isinstance(v.left, ast.Call) and isinstance(v.left.func, ast.Attribute) and v.left.func.attr in ('match', 'fullmatch', 'search')) or (isinstance(v, ast.Call) and isinstance(v.func, ast.Attribute) and v.func.attr == 'test')
+            if not good_ret:
+                other.append(r)
+        rep.decide(not other, 'single matching path', other[0] if other else f, 'every return of like() is the verdict of the translated, anchored regular expression', 'like() has a second matching path that bypasses the translated pattern: `{}`'.format(node_text(other[0], 100) if other else ''))
 
 
 def rule_lk_part(cx, rep, port):
     """scan-and-flush: index +1 every iteration unconditionally; on a wildcard flush [p,i) and set p = i+1; final flush [p,end)"""
     p, fd = _fd(cx, port)
+    if _escrepl_family(fd, port) is not None:
+        rep.holds('scan schema', fd, 'escape-then-replace family: no scan loop; judged by LK-TAINT')
+        return
     pat = fd.args.args[0].arg
     loops = [n for n in walk_no_nested(fd) if isinstance(n, (ast.While, ast.For))]
     if len(loops) != 1:
